@@ -115,11 +115,22 @@ def c06_unary_looser_than_mul(op, impl, model, args):
             return False
         if not _explained_by_unary_rotation(ir, peg):
             return False
-        # the rest of the statement (rowan verdict, trivia invariance) must hold
-        rowan_ok = op.get("rowan") is True or "(Plus " in ir
+        # the rest of the statement (rowan verdict, trivia invariance) must hold, or the rowan verdict
+        # must itself be one of the listed rowan deviations (two findings in one text, e.g.
+        # `- a . b * import c ( 1 )`: unary rotation AND `import` without a string literal)
+        rowan_ok = op.get("rowan") is True or "(Plus " in ir or _rowan_deviation_listed(op)
         base_ok = "base" not in op or op["base"] == ir
         return rowan_ok and base_ok
     return False
+
+
+def _rowan_deviation_listed(op):
+    """the rowan verdict of a text both evaluator parsers accept is explained by one of the listed
+    rowan findings (evaluated as if the two evaluator trees were equal)"""
+    shadow = dict(op, peg=op.get("ir"))
+    return any(f(shadow, None, None, {}) for f in (
+        c06_rowan_no_unary_plus, c06_rowan_local_assert_only_at_expression_start,
+        c06_rowan_import_requires_string_literal))
 
 
 def _only_rowan_deviates(op):
@@ -129,8 +140,9 @@ def _only_rowan_deviates(op):
 def c06_rowan_no_unary_plus(op, impl, model, args):
     """rowan parser has no unary `+` operator kind: reports an error although the evaluator's
     parsers accept; nothing else may be wrong with the case"""
-    return _only_rowan_deviates(op) and _acc(op) and op.get("rowan") is False and "(Plus " in op["ir"] \
-        and not re.search(r"\((?:import \w+ (?!\")|" + _UN + r" \((?:local|assertexpr) )", op["ir"])
+    # a text with a unary plus can never be error-free in the rowan parser, whatever else it contains
+    # (`+ local x = 1; x`, `+ import a`), so the verdict is explained by this finding alone
+    return _only_rowan_deviates(op) and _acc(op) and op.get("rowan") is False and "(Plus " in op["ir"]
 
 
 _LEXICAL_MSGS = (
@@ -187,11 +199,14 @@ def c06_rowan_local_assert_only_at_expression_start(op, impl, model, args):
 
 def c06_rowan_import_requires_string_literal(op, impl, model, args):
     """rowan parser requires a string token after `import` (it used to panic, since the C20 repair
-    it reports "missing string literal") while the evaluator's parsers accept any expression there"""
+    it reports "missing string literal") while the evaluator's parsers accept any expression there;
+    the text must contain an import keyword that is NOT directly followed by a string literal
+    (`import a`, `import importstr "a.txt"`)"""
     return _only_rowan_deviates(op) and _acc(op) \
         and (op.get("rowan") is False or (isinstance(op.get("rowan"), str) and "Text::can_cast" in op["rowan"])) \
         and "(import " in op["ir"] \
-        and re.search(r"\bimport(?:str|bin)?" + _TRIVIA + r"[\"'@|]", op.get("src", "")) is None
+        and any(re.match(_TRIVIA + r"[\"'@|]", op.get("src", "")[m.end():]) is None
+                for m in re.finditer(r"\bimport(?:str|bin)?\b", op.get("src", "")))
 
 
 def _peg_lenient(op):
@@ -235,4 +250,4 @@ def c06_ir_spaced_visibility_colons(op, impl, model, args):
     are single tokens and the PEG grammar rejects the spaced form"""
     return _agree(op) and _acc(op) and op.get("peg") == "reject" \
         and re.search(r":(?:\s|/\*.*?\*/)+:", op.get("src", "")) is not None \
-        and re.search(r"\(field \S+(?: \+)? (?:Hidden|Unhide) ", op["ir"]) is not None
+        and re.search(r"\(field (?:\"(?:\\.|[^\"\\])*\"|\S+)(?: \+)? (?:Hidden|Unhide) ", op["ir"]) is not None
